@@ -202,6 +202,31 @@ def run(chk, prog):
         if k not in used:
             chk.note('C04 table entry matches no site (stale): ' + k)
 
+    # ---------------------------------------------------------------- D
+    RD = 'C04.optional-origin-not-unwrapped'
+    chk.rule(RD, 'No unwrap/expect in bladeink has a receiver that derives from InkListItem::origin_name (directly or '
+             'through get_origin_name): the story decoder builds items without an origin for names that contain no dot, '
+             'so such an unwrap is a panic reachable from a loadable story.')
+    from analysis.panics import sites as panic_sites
+    nun = 0
+    for fn in sorted(prog.fns.values(), key=lambda f: f.p):
+        if fn.crate != 'bladeink':
+            continue
+        for s_ in panic_sites(prog, fn):
+            if not s_['kind'].startswith('unwrap:') or not s_['term']['args']:
+                continue
+            at = tr.prov(fn, s_['term']['args'][0])
+            if 'field:InkListItem::origin_name' in at or any('InkListItem::get_origin_name' in a for a in at):
+                nun += 1
+                chk.fail(RD, chk.key(RD, prog.root_fn(fn).short, '#%d' % nun),
+                         '%s unwraps the optional origin name of a list item: a story whose list value names an item '
+                         'without its list panics here' % prog.root_fn(fn).short, fn.loc(s_['bb']))
+    g_on = prog.fn('InkListItem::get_origin_name')
+    if chk.anchor(RD, 'InkListItem::get_origin_name', g_on):
+        chk.decide(RD, chk.key(RD, 'getter-returns-option'), g_on.body['locals'][0]['ty'].startswith('core::option::Option<'),
+                   'the origin name is optional in the type (%d unwraps of it found)' % nun,
+                   'InkListItem::get_origin_name no longer returns an Option', g_on.loc(0))
+
     # ---------------------------------------------------------------- B
     ci = prog.fn('Story::continue_internal')
     if chk.anchor(RB, 'Story::continue_internal', ci):
